@@ -184,6 +184,21 @@ fn segments(s: &str) -> Vec<Seg> {
     let mut i = 0;
     let mut text = String::new();
     while i < cs.len() {
+        // a decimal may also start with its separator (`,5`) when no digit precedes it
+        let lead_sep = (cs[i] == ',' || cs[i] == '.') && i + 1 < cs.len() && cs[i + 1].is_ascii_digit() && (i == 0 || !cs[i - 1].is_ascii_digit());
+        if lead_sep {
+            let st = i;
+            i += 1;
+            while i < cs.len() && cs[i].is_ascii_digit() {
+                i += 1;
+            }
+            let run: String = cs[st..i].iter().collect();
+            if !text.is_empty() {
+                out.push(Seg::Text(std::mem::take(&mut text)));
+            }
+            out.push(Seg::Num(DecStr::parse(&run).unwrap()));
+            continue;
+        }
         if cs[i].is_ascii_digit() {
             let st = i;
             while i < cs.len() && cs[i].is_ascii_digit() {
@@ -216,7 +231,8 @@ fn segments(s: &str) -> Vec<Seg> {
 /// separate, known class.)
 pub fn has_long_number(s: &str) -> bool {
     segments(s).iter().any(|g| match g {
-        Seg::Num(d) => d.int.len() + d.frac.len() > 15,
+        // formatted with up to 4 decimals (the largest currency precision)
+        Seg::Num(d) => d.int.len() + d.frac.len() > 15 || (d.int.len() >= 12 && d.int.len() + 4 > 15),
         _ => false,
     })
 }
